@@ -888,7 +888,8 @@ def main(tier):
           "extraction: ExtrOcamlBasic only; OCaml 4.13.1; ocaml/drv_c08.ml (parser of the cty / value strings)",
           "lib/modgen.py (modules, independent X.680 tagging for the DER transport), lib/c08_util.py (decoration with unions/EXCEPT, cty strings, value and violation generators, Python reading of the Spec used to attribute mismatches to known findings, string oracle)",
           "harness/moddrv.c + harness/moddrv_c08.inc (`chkx`: canary-guarded buffers, `chke`: exact-size malloc under ASan), lib/modbuild.py; gcc + ASan/UBSan", "values reach the C as DER through ber_decode; a case is used only if DER -> structure -> DER is the identity",
-          "vsnprintf's contract (the model of the buffer is stated over it; the text is compared with the message obtained in a 4096-byte buffer)"]
+          "vsnprintf's contract (the model of the buffer is stated over it; the text is compared with the message obtained in a 4096-byte buffer)",
+          "lib/c08_open.py (module MBU: overlapping unions by shape x relation x order; module MR0: recursive types / -findirect-choice with its own DER encoder and Python reading of the Spec at every nesting position; reader of ATF_POINTER in the generated member tables)"]
     return run.finish("proof", (nthm, ndis), trusted_base=tb,
                       checker_cmd="make -C /verif all && coqc -Q coq A1 coq/Props/Properties_C08.v",
                       extra_cov={"theorems": names, "modules": nmods, "flag_sets": [" ".join(f[1]) or "(none)" for f in flagsets],
